@@ -65,7 +65,13 @@ def main():
                     print("SELFTEST-BROKEN %s %s: pattern occurs %d times in %s" % (m["property"], m["name"], orig.count(m["old"]), m["file"]))
                     fails += 1
                     continue
-                open(path, "w").write(orig.replace(m["old"], m["new"]))
+                text_ = orig.replace(m["old"], m["new"])
+                for o2, n2 in m.get("more", ()):        # further edits in the same file
+                    if text_.count(o2) != 1:
+                        print("SELFTEST-BROKEN %s %s: extra pattern occurs %d times" % (m["property"], m["name"], text_.count(o2)))
+                        fails += 1
+                    text_ = text_.replace(o2, n2)
+                open(path, "w").write(text_)
                 try:
                     tu = m.get("tu", m["file"])
                     ok, err = syntax_ok(scratch, tu) if tu.endswith(".cpp") else (True, "")
